@@ -44,6 +44,7 @@ type SwDesc struct {
 	Version *string   `json:"ver,omitempty"`
 	Signer  *HexBytes `json:"sid,omitempty"`
 	MDesc   *string   `json:"md,omitempty"`
+	XTra    *string   `json:"xtra,omitempty"` // xc: the field the profile's own component type adds
 }
 
 const (
@@ -66,6 +67,8 @@ func profileNameOf(prof string) string {
 		return xp2Name
 	case "xw":
 		return xwName
+	case "xc":
+		return xcName
 	case "xu":
 		return xuName
 	}
@@ -205,13 +208,37 @@ func genValidClaims(r *Rng, prof string) ClaimsDesc {
 		k := r.Range(10, 20)
 		perm := r.Perm(20)
 		d.Wide = append([]int{}, perm[:k]...)
+		for _, alt := range []int{280, 281} { // the two claims whose tag options are spelt differently
+			if r.Chance(1, 2) {
+				d.Wide = append(d.Wide, alt)
+			}
+		}
+		if r.Chance(1, 6) {
+			// all twenty plus most of the 260 bulk claims: the total crosses
+			// 255/256 members (two-byte map head)
+			d.Wide = d.Wide[:0]
+			for i := 0; i < 20; i++ {
+				d.Wide = append(d.Wide, i)
+			}
+			bp := r.Perm(260)
+			for _, i := range bp[:r.Range(212, 260)] {
+				d.Wide = append(d.Wide, 20+i)
+			}
+		}
 		if r.Chance(1, 2) {
 			t := int64(1600000000 + r.Intn(1<<27))
 			d.Stamp = &t
 		}
 	}
-	if prof != "p1" && prof != "xp1" && r.Chance(1, 6) {
+	if prof != "p1" && prof != "xp1" && prof != "xc" && r.Chance(1, 6) {
 		d.XSw = true
+	}
+	if prof == "xc" {
+		for i := range d.Sw {
+			if r.Chance(2, 3) {
+				d.Sw[i].XTra = sp(textPool[r.Intn(len(textPool))])
+			}
+		}
 	}
 	return d
 }
@@ -403,6 +430,9 @@ func encodeSwList(sw []SwDesc) []byte {
 		if c.MDesc != nil {
 			add(6, tstr(*c.MDesc))
 		}
+		if c.XTra != nil {
+			add(7, tstr(*c.XTra))
+		}
 		out = append(out, encodeHead(5, uint64(n))...)
 		out = append(out, body...)
 	}
@@ -434,6 +464,24 @@ func buildSwComponent(c SwDesc) *psatoken.SwComponent {
 	return sc
 }
 
+// swToXIface: the same list as values of the xc profile's own component type.
+func swToXIface(sw []SwDesc) []psatoken.ISwComponent {
+	out := make([]psatoken.ISwComponent, len(sw))
+	for i, c := range sw {
+		if c.Nil {
+			out[i] = (*XSwExt)(nil)
+			continue
+		}
+		x := &XSwExt{SwComponent: *buildSwComponent(c)}
+		if c.XTra != nil {
+			v := *c.XTra
+			x.Extra = &v
+		}
+		out[i] = x
+	}
+	return out
+}
+
 func swToIface(sw []SwDesc) []psatoken.ISwComponent {
 	out := make([]psatoken.ISwComponent, len(sw))
 	for i, c := range sw {
@@ -452,6 +500,35 @@ func buildContainer(d *ClaimsDesc) (psatoken.ISwComponents, error) {
 	}
 	if d.XSw && len(d.Sw) > 0 {
 		xc := &psatoken.SwComponents[*XSwComponent]{}
+		if err := xc.UnmarshalCBOR(encodeSwList(d.Sw)); err != nil {
+			return nil, fmt.Errorf("container decode: %w", err)
+		}
+		return xc, nil
+	}
+	if d.Prof == "xc" {
+		xc := &psatoken.SwComponents[*XSwExt]{}
+		if len(d.Sw) == 0 {
+			return xc, nil
+		}
+		l := make([]psatoken.ISwComponent, 0, len(d.Sw))
+		for _, c := range d.Sw {
+			if c.Nil {
+				l = nil
+				break
+			}
+			x := &XSwExt{SwComponent: *buildSwComponent(c)}
+			if c.XTra != nil {
+				v := *c.XTra
+				x.Extra = &v
+			}
+			l = append(l, x)
+		}
+		if l != nil {
+			if err := xc.Add(l...); err == nil {
+				return xc, nil
+			}
+		}
+		xc = &psatoken.SwComponents[*XSwExt]{}
 		if err := xc.UnmarshalCBOR(encodeSwList(d.Sw)); err != nil {
 			return nil, fmt.Errorf("container decode: %w", err)
 		}
@@ -628,6 +705,8 @@ func (d *ClaimsDesc) buildRaw() (psatoken.IClaims, error) {
 			x.Extra = &v
 		}
 		return x, nil
+	case "xc":
+		return buildP2(d, xcName)
 	case "xw":
 		b, err := buildP2(d, xwName)
 		if err != nil {
@@ -681,7 +760,12 @@ func (d *ClaimsDesc) buildViaSetters() (out psatoken.IClaims, oerr error) {
 		steps = append(steps, func() error { return c.SetCertificationReference(*d.CertRef) })
 	}
 	if len(d.Sw) > 0 {
-		steps = append(steps, func() error { return c.SetSoftwareComponents(swToIface(d.Sw)) })
+		steps = append(steps, func() error {
+			if d.Prof == "xc" {
+				return c.SetSoftwareComponents(swToXIface(d.Sw))
+			}
+			return c.SetSoftwareComponents(swToIface(d.Sw))
+		})
 	} else if d.NoMeas != nil {
 		steps = append(steps, func() error { return c.SetSoftwareComponents(nil) })
 	}
